@@ -43,7 +43,8 @@ pub fn gen(seed: u64, n: usize, out: &mut String) {
         let mut s = sig::gen_signal(&mut r, ch, bps, n_s);
         c.bs = bs;
         let total_blocks = nblocks + (tail > 0) as usize;
-        let w = 1 + r.below(4) as usize;
+        // 1 case in 32: far more workers than cores or blocks (frame-buffer pool of 2 x workers entries)
+        let w = if i % 32 == 9 { *r.pick(&[17usize, 33, 40, 64]) } else { 1 + r.below(4) as usize };
         let pseed = if r.chance(1, 6) { 0 } else { r.next() | 1 };
         let readfail = if r.chance(1, 3) { format!("{}", r.below(total_blocks as u64 + 2)) } else { "-".to_string() };
         let mut inv: Vec<usize> = vec![];
